@@ -51,6 +51,10 @@ func TestC02(t *testing.T) {
 			cfg.ProtocolVersion = uint(v)
 			cfg.Plugins = vp.Set(p.Proto[strconv.Itoa(v)], v, []string{"kv"}, nil)
 		}
+		if p.Host.Overlap != nil && p.Host.OverlapSetOf != nil {
+			cfg.ProtocolVersion = uint(*p.Host.Overlap)
+			cfg.Plugins = cfg.VersionedPlugins[*p.Host.OverlapSetOf]
+		}
 		pcfg := c02PluginCfg(p)
 		pcfg["ctl"] = ""
 		l := prepare(c.ID, "", pcfg, cfg, "cmd")
